@@ -1880,6 +1880,11 @@ fn eval_in_negated_list(left: &Value, items: &[Value]) -> Value {
           return Value::Boolean(false);
         }
       }
+      inner @ Value::Range(..) => {
+        if let Value::Boolean(true) = eval_in_range(left, inner) {
+          return Value::Boolean(false);
+        }
+      }
       Value::UnaryLess(inner) => {
         if let Value::Boolean(true) = eval_in_unary_less(left, inner.borrow()) {
           return Value::Boolean(false);
